@@ -12,6 +12,13 @@ use core::fmt::Write;
 use core::mem::{size_of, MaybeUninit};
 
 fn fmt_debug<T: core::fmt::Debug>(t: &T) -> Sink {
+    // both the plain and the alternate ("pretty") form go into the same sink
+    let mut s = Sink::new();
+    let r = write!(s, "{:?}|{:#?}", t, t);
+    assert!(r.is_ok());
+    s
+}
+fn fmt_debug_plain<T: core::fmt::Debug>(t: &T) -> Sink {
     let mut s = Sink::new();
     let r = write!(s, "{:?}", t);
     assert!(r.is_ok());
@@ -67,6 +74,28 @@ macro_rules! debug_bytes {
             m1.$call(&mut d1);
             m2.$call(&mut d2);
             let (s1, s2) = (fmt_debug(&m1), fmt_debug(&m2));
+            same_text(&s1, &s2);
+            kani::cover!(true);
+        }
+    };
+}
+/// Known-finding variant for the byte-level aliases: plain {:?} only (cheaper).
+macro_rules! debug_bytes_kf {
+    ($name:ident, $unw:expr, $ty:ty, $call:ident, $ivbs:ty, $ivlen:expr, $n1:expr, $n2:expr) => {
+        #[kani::proof]
+        #[kani::unwind($unw)]
+        pub fn $name() {
+            let k1: [u8; 2] = kani::any();
+            let k2: [u8; 2] = kani::any();
+            let iv1: [u8; $ivlen] = kani::any();
+            let iv2: [u8; $ivlen] = kani::any();
+            let mut d1: [u8; $n1] = kani::any();
+            let mut d2: [u8; $n2] = kani::any();
+            let mut m1 = <$ty>::new(&k1.into(), blk::<$ivbs>(&iv1));
+            let mut m2 = <$ty>::new(&k2.into(), blk::<$ivbs>(&iv2));
+            m1.$call(&mut d1);
+            m2.$call(&mut d2);
+            let (s1, s2) = (fmt_debug_plain(&m1), fmt_debug_plain(&m2));
             same_text(&s1, &s2);
             kani::cover!(true);
         }
@@ -148,12 +177,10 @@ macro_rules! drop_block {
         #[kani::unwind($unw)]
         pub fn $name() {
             const SZ: usize = size_of::<$ty>();
-            // layout precondition of THIS harness (not of the property): if the object's layout changes, the
-            // harness must be re-instantiated; the unsatisfied cover below then reports "inconclusive"
-            if SZ != $size {
-                kani::cover!(false, "harness precondition: padding-free instantiation of the expected size");
-                return;
-            }
+            // layout precondition of THIS harness (not of the property): if the object's layout changes the
+            // harness must be re-instantiated; the runner classifies a failed "harness precondition"
+            // assertion as inconclusive (exit 2), never as a violation
+            assert!(SZ == $size, "harness precondition: padding-free instantiation of the expected size");
             let iv: [u8; $ivlen] = kani::any();
             let mut d: [u8; $mb] = kani::any();
             let img = drop_image!($ty, SZ, <$ty>::inner_iv_init(UfZ::new(), blk::<$ivbs>(&iv)), |m| {
@@ -174,12 +201,10 @@ macro_rules! drop_core {
         #[kani::unwind($unw)]
         pub fn $name() {
             const SZ: usize = size_of::<$ty>();
-            // layout precondition of THIS harness (not of the property): if the object's layout changes, the
-            // harness must be re-instantiated; the unsatisfied cover below then reports "inconclusive"
-            if SZ != $size {
-                kani::cover!(false, "harness precondition: padding-free instantiation of the expected size");
-                return;
-            }
+            // layout precondition of THIS harness (not of the property): if the object's layout changes the
+            // harness must be re-instantiated; the runner classifies a failed "harness precondition"
+            // assertion as inconclusive (exit 2), never as a violation
+            assert!(SZ == $size, "harness precondition: padding-free instantiation of the expected size");
             let iv: [u8; $ivlen] = kani::any();
             let pos: $ct = kani::any();
             let mut b: [u8; $ivlen] = kani::any();
@@ -204,12 +229,10 @@ macro_rules! drop_wrapper {
         pub fn $name() {
             type W = StreamCipherCoreWrapper<$core>;
             const SZ: usize = size_of::<W>();
-            // layout precondition of THIS harness (not of the property): if the object's layout changes, the
-            // harness must be re-instantiated; the unsatisfied cover below then reports "inconclusive"
-            if SZ != $size {
-                kani::cover!(false, "harness precondition: padding-free instantiation of the expected size");
-                return;
-            }
+            // layout precondition of THIS harness (not of the property): if the object's layout changes the
+            // harness must be re-instantiated; the runner classifies a failed "harness precondition"
+            // assertion as inconclusive (exit 2), never as a violation
+            assert!(SZ == $size, "harness precondition: padding-free instantiation of the expected size");
             let iv: [u8; $ivlen] = kani::any();
             let mut d: [u8; $n] = kani::any();
             let img = drop_image!(W, SZ, StreamCipherCoreWrapper::from_core(<$core>::inner_iv_init(UfZ::new(), blk::<$ivbs>(&iv))), |m| {
@@ -233,10 +256,7 @@ macro_rules! drop_buf {
         #[kani::unwind($unw)]
         pub fn $name() {
             const SZ: usize = size_of::<$ty>();
-            if SZ != $b + 8 {
-                kani::cover!(false, "harness precondition: padding-free instantiation of the expected size");
-                return;
-            }
+            assert!(SZ == $b + 8, "harness precondition: padding-free instantiation of the expected size");
             let iv1: [u8; $b] = kani::any();
             let iv2: [u8; $b] = kani::any();
             let mut d1: [u8; $n] = kani::any();
@@ -290,8 +310,8 @@ algname_case!(alg_cbc_enc, 210, cbc::Encryptor<F2>, "cbc::Encryptor<Uf>");
 algname_case!(alg_ctr64le, 210, ctr::CtrCore<UfE<U8, U1>, ctr::flavors::Ctr64LE>, "Ctr64LE<Uf>");
 algname_case!(alg_belt, 210, belt_ctr::BeltCtrCore<UfE<U16, U1>>, "BeltCtr<Uf>");
 // known finding: Debug of the byte-level aliases prints the unused keystream bytes of the current block
-debug_bytes!(kf_debug_alias_ctr32be, 210, ctr::Ctr32BE<UfE<U4, U1>>, apply_keystream, U4, 4, 1, 1);
-debug_bytes!(kf_debug_alias_ofb, 210, ofb::Ofb<UfE<U4, U1>>, apply_keystream, U4, 4, 1, 1);
+debug_bytes_kf!(kf_debug_alias_ctr32be, 210, ctr::Ctr32BE<UfE<U4, U1>>, apply_keystream, U4, 4, 1, 1);
+debug_bytes_kf!(kf_debug_alias_ofb, 210, ofb::Ofb<UfE<U4, U1>>, apply_keystream, U4, 4, 1, 1);
 
 drop_block!(drop_cbc_enc, 48, cbc::Encryptor<Z4>, enc, U4, 4, U4, 4, 4);
 drop_block!(drop_cbc_dec, 48, cbc::Decryptor<Z4>, dec, U4, 4, U4, 4, 4);
@@ -308,6 +328,9 @@ drop_buf!(drop_cfb_bufenc, 48, cfb_mode::BufEncryptor<Z8>, encrypt, U8, 8, 11);
 drop_buf!(drop_cfb_bufdec, 48, cfb_mode::BufDecryptor<Z8>, decrypt, U8, 8, 11);
 drop_core!(drop_ctr32be_core, 48, ctr::CtrCore<Z8, ctr::flavors::Ctr32BE>, u32, U8, 8, 12);
 drop_core!(drop_ctr32le_core, 48, ctr::CtrCore<Z8, ctr::flavors::Ctr32LE>, u32, U8, 8, 12);
+drop_core!(drop_ctr32be_core_b32, 64, ctr::CtrCore<UfZ<U32, U1>, ctr::flavors::Ctr32BE>, u32, U32, 32, 36);
+drop_core!(drop_ctr32le_core_b32, 64, ctr::CtrCore<UfZ<U32, U1>, ctr::flavors::Ctr32LE>, u32, U32, 32, 36);
+drop_core!(drop_ctr64be_core_b32, 64, ctr::CtrCore<UfZ<U32, U1>, ctr::flavors::Ctr64BE>, u64, U32, 32, 40);
 drop_core!(drop_ctr64be_core, 64, ctr::CtrCore<Z16, ctr::flavors::Ctr64BE>, u64, U16, 16, 24);
 drop_core!(drop_ctr64le_core, 64, ctr::CtrCore<Z16, ctr::flavors::Ctr64LE>, u64, U16, 16, 24);
 drop_core!(drop_ctr128be_core, 64, ctr::CtrCore<Z16, ctr::flavors::Ctr128BE>, u128, U16, 16, 32);
@@ -320,7 +343,7 @@ drop_wrapper!(drop_ofb_alias, 48, ofb::OfbCore<Z4>, U4, 4, 5, 8);
 drop_wrapper!(drop_belt_alias, 64, belt_ctr::BeltCtrCore<Z16>, U16, 16, 5, 48);
 
 // ---- thorough --------------------------------------------------------------------------------
-debug_bytes!(kf_t_debug_alias_ctr64le, 210, ctr::Ctr64LE<UfE<U8, U1>>, apply_keystream, U8, 8, 3, 9);
+debug_bytes_kf!(kf_t_debug_alias_ctr64le, 210, ctr::Ctr64LE<UfE<U8, U1>>, apply_keystream, U8, 8, 3, 9);
 drop_wrapper!(t_drop_ctr32le_alias, 48, ctr::CtrCore<Z8, ctr::flavors::Ctr32LE>, U8, 8, 9, 20);
 drop_wrapper!(t_drop_ctr64be_alias, 64, ctr::CtrCore<Z16, ctr::flavors::Ctr64BE>, U16, 16, 1, 40);
 drop_wrapper!(t_drop_ctr128le_alias, 64, ctr::CtrCore<Z16, ctr::flavors::Ctr128LE>, U16, 16, 33, 48);
